@@ -56,6 +56,11 @@ CHECKS.update({
          "Streams of the C12 grammar (any outcomes, hooks, retries, background failures, parser errors; FailOnSkipped-rewritten variant) x {with path, path-less} x {plain names, names with quotes / markup / non-ASCII, same-named scenarios at different lines} x reporter options (libtest show_output / report_time, verbosity 0/1) through Normalize<Basic>, Normalize<Libtest>, Normalize<Json>, Normalize<JUnit> into memory sinks. tools/parse_reports.py (python json, xml.etree, a line parser also applied to JUnit's embedded terminal text) parses every report back; multiset of facts per feature / rule / scenario / attempt == facts of the stream; documents well-formed; libtest started/result pairing, totals and verdict; JSON one object per feature / element; JUnit one test case per finished attempt with the right suite, name and status.", "§6 C14"),
 })
 
+CHECKS.update({
+ "C19": ("exploration", "hist", "exhaustive enumeration of step texts against a compiled zoo of annotated functions with hand-written reference matchers",
+         "A zoo compiled into the harness: 23 attribute instances on 21 functions for 2 Worlds (sync/async, unit/Result, typed args, slice, #[step] and `step` argument, literal / regex = / expr =, custom Parameter with one and several capturing groups, several attributes on one fn, named group). Every text of <=3 (4 thorough) tokens over a 12-token alphabet plus positive and near-miss texts of every entry (prefix, suffix, padding, case, out-of-range numbers) x 3 keywords x 2 Worlds through World::collection().find() and a call of the found function. Oracle: registration counts per keyword and World via inventory; per text the hand-written matcher of each entry decides not-found / the function with exactly the parsed arguments / failure (parse failure or returned Err must fail the step).", "§6 C19"),
+})
+
 NOT_YET = {
 }
 
